@@ -114,9 +114,40 @@ def _ops_in(ctx, f, own, other_name):
         rt = pat.inline(ctx, f, r).replace(" ", "")
         names = {"self." + own, other_name + "." + own, other_name,
                  other_name + ".value", "self.value"}
+        # Payload.get(other) is the unboxing helper: `other.value` for a box,
+        # `other` itself otherwise -- one expression for both operand kinds
+        unbox = "Payload.get(%s)" % other_name
+        if unbox in (lt, rt) and _get_is_unboxer(ctx):
+            for alt in (other_name, other_name + ".value"):
+                l2 = alt if lt == unbox else lt
+                r2 = alt if rt == unbox else rt
+                if l2 in names and r2 in names:
+                    n._c11_unboxed = True
+                    out.append((op, l2, r2, n))
+            continue
         if lt in names and rt in names:
             out.append((op, lt, rt, n))
     return out
+
+
+def _get_is_unboxer(ctx):
+    """Payload.get(x) returns x.value for a Payload and x itself otherwise
+    (read from its source on every run)."""
+    g = ctx.prog.maybe_method("Payload", "get")
+    if g is None or not g.params:
+        return False
+    x = g.params[0]
+    from ..cfg import atomic_guards
+    got = set()
+    for r in pat.returns(g):
+        gs = {pat.catom(ctx, g, t, pol, False) for t, pol in atomic_guards(r)}
+        isbox = pat.T("isinstance(%s, Payload)" % x)
+        v = text(r.value).replace(" ", "")
+        if v == x and (isbox[0], isbox[1], False) in gs:
+            got.add("plain")
+        if v == x + ".value" and isbox in gs:
+            got.add("boxed")
+    return got == {"plain", "boxed"}
 
 
 def _guarded_by_isinstance(ctx, f, node, other_name, cls_names):
@@ -201,6 +232,8 @@ def slots(ctx, cname, own, rule):
         # operand-kind guard: the boxed form only where `other` is a box
         okg = True
         for o, l, r, node in ops:
+            if getattr(node, "_c11_unboxed", False):
+                continue    # Payload.get() does the kind test itself
             if r == boxed_other or l == boxed_other:
                 g = _guarded_by_isinstance(ctx, f, node, other,
                                            {cname, "Payload"} if cname == "Payload"
@@ -326,6 +359,8 @@ def _check_assign(ctx, rule, cname, f, own, other):
         for n in f.own_nodes():
             if isinstance(n, ast.Assign) and text(n.targets[0]) == me:
                 got.add(pat.inline(ctx, f, n.value).replace(" ", ""))
+        if got == {"Payload.get(%s)" % other} and _get_is_unboxer(ctx):
+            got = set(want)
         if got == want:
             ctx.ok(rule, f, f.node, "<<= stores other's value / other",
                    text_="%s.__ilshift__" % cname)
@@ -498,7 +533,7 @@ def _under_fiber_test(ctx, f, node):
 
 
 def _check_form_body(ctx, f, mname, fiber_form, loop):
-    body_src = " ".join(text(s) for s in loop.body).replace(" ", "")
+    body_src = "\n".join(text(s) for s in loop.body).replace(" ", "")
     tgt = text(loop.target).replace(" ", "")
     # the list the result's payloads are collected in: second argument of the
     # constructor call that is returned
